@@ -453,8 +453,19 @@ var displaceTargets = func() []geometry.Point {
 }()
 
 // c04Series checks one point sequence under every index kind / threshold.
+type c04cur struct{ desc func() rt.Case }
+
+func runC04Describe(cur any) (rt.Case, bool) {
+	c, ok := cur.(*c04cur)
+	if !ok || c.desc == nil {
+		return rt.Case{}, false
+	}
+	return c.desc(), true
+}
+
 func c04Series(r *rt.Run, w *rt.Worker, ctx *c04ctx, pts []geometry.Point, closed bool, queries []geometry.Rect, stopMode int, thresholds bool, desc func() rt.Case, st *idxStats) {
 	n := len(pts)
+	w.Cur = &c04cur{desc}
 	for ki, k := range idxKinds {
 		mps := []int{1}
 		if thresholds {
@@ -547,6 +558,7 @@ func runC04(r *rt.Run) {
 	r.Rule = "insert histories: every point sequence up to a depth over small lattices; 11 layout families x sizes crossing every structural threshold x <=1 (thorough <=2 for n<=66) displaced points at every position x 25 targets; each under {r-tree, quadtree} x MinPoints {1, n, n+1}, open and closed; probes: grid of query rectangles incl. infinite bounds and 1-ulp neighbours x every early-stop position; then predicate answers under every index and after Move; non-trivial = series with at least one segment"
 	r.Assume = []string{"oracle: brute force over SegmentAt(i).Rect() by definition", "index bytes are decoded only to measure which encodings occurred"}
 	var stats idxStats
+	r.Describe = runC04Describe
 
 	// (a) all short sequences
 	type scope struct{ k, off, depth int }
@@ -842,7 +854,9 @@ func evalC04(c *rt.Case) (bool, string, string, error) {
 		for _, f := range families {
 			if f.name == c.X["family"] {
 				found := false
-				want := c.Key()
+				cc := *c
+				cc.Class = ""
+				want := cc.Key()
 				var exp, got string
 				c04PredJob(f, n, rt.NewRun("replay").Worker(), func(class string, fc rt.Case, e, g string) {
 					if fc.Key() == want {
